@@ -28,6 +28,43 @@ fn year_class(y: i64) -> &'static str {
     }
 }
 
+
+/// Display read through the formatting machinery's other doors: a width, a fill and an alignment, a precision, flags,
+/// a wrapper that forwards its Formatter, write! into a String.  Padding may be added (it is stripped here — the fill
+/// characters used never occur at the ends of a default text); anything else must leave the text what to_string() is:
+/// a precision must not cut it short.  Returns the first route whose text differs.
+fn display_routes<T: std::fmt::Display>(x: &T, shown: &str) -> Option<(&'static str, String)> {
+    use std::fmt::Write;
+    struct Fwd<'a, U: std::fmt::Display>(&'a U);
+    impl<U: std::fmt::Display> std::fmt::Display for Fwd<'_, U> {
+        fn fmt(&self, f: &mut std::fmt::Formatter<'_>) -> std::fmt::Result {
+            self.0.fmt(f)
+        }
+    }
+    let mut w = String::new();
+    let _ = write!(w, "{}", x);
+    let routes: Vec<(&'static str, String, char)> = vec![
+        ("write!", w, ' '),
+        ("{:>40}", format!("{:>40}", x), ' '),
+        ("{:<5}", format!("{:<5}", x), ' '),
+        ("{:*^33}", format!("{:*^33}", x), '*'),
+        ("{:.7}", format!("{:.7}", x), ' '),
+        ("{:.0}", format!("{:.0}", x), ' '),
+        ("{:.3}", format!("{:.3}", x), ' '),
+        ("{:_<30.5}", format!("{:_<30.5}", x), '_'),
+        ("{:+}", format!("{:+}", x), ' '),
+        ("{:#}", format!("{:#}", x), ' '),
+        ("forwarding wrapper {:>30.4}", format!("{:>30.4}", Fwd(x)), ' '),
+        ("forwarding wrapper {}", format!("{}", Fwd(x)), ' '),
+    ];
+    for (name, text, fill) in routes {
+        if text.trim_matches(fill) != shown {
+            return Some((name, text));
+        }
+    }
+    None
+}
+
 fn judge_date(rec: &mut Rec, day: i64) {
     rec.eval();
     let (y, m, d) = cal::ymd(day);
@@ -50,19 +87,23 @@ fn judge_date(rec: &mut Rec, day: i64) {
     };
     let r = trap(|| {
         let shown = x.to_string();
+        let routes = display_routes(&x, &shown);
         // "of the value": what the value's own format() shows for the documented default pattern
         let disp_lib = x.format("yyyy/MM/dd");
         let iso_lib = x.format("yyyy-MM-dd");
         let parsed = Date::from_str(&iso).map(|p| same_day(&p)).map_err(|e| e.to_string());
         let js = serde_json::to_string(&x).map_err(|e| e.to_string());
         let back = js.clone().and_then(|j| serde_json::from_str::<Date>(&j).map_err(|e| e.to_string())).map(|p| same_day(&p));
-        (shown, disp_lib, iso_lib, parsed, js, back)
+        (shown, disp_lib, iso_lib, parsed, js, back, routes)
     });
     rec.api("Date: Display/FromStr/serde");
     let wit = |obs: Value| json!({"date": [y, m, d], "day": day, "model_display": disp, "model_iso": iso, "observed": obs});
     match r {
         Err(p) => rec.violation(format!("C20|date|Display/FromStr/serde|panic|{},{}", p.class, p.site()), || wit(p.to_json())),
-        Ok((shown, disp_lib, iso_lib, parsed, js, back)) => {
+        Ok((shown, disp_lib, iso_lib, parsed, js, back, routes)) => {
+            if let Some((route, text)) = routes {
+                rec.violation(format!("C20|date|Display|format-spec-changes-the-text|{}", route), || wit(json!({"to_string": shown, "route": route, "text": text})));
+            }
             if shown != disp_lib {
                 rec.violation(format!("C20|date|Display|wrong-text|{}", year_class(y)), || wit(json!({"to_string": shown, "format(\"yyyy/MM/dd\")": disp_lib})));
             }
@@ -107,6 +148,7 @@ fn judge_time(rec: &mut Rec, n: u64, off: i32) {
     let local_secs = v.tod / 1_000_000_000;
     let r = trap(|| {
         let shown = t.to_string();
+        let routes = display_routes(&t, &shown);
         let hms_lib = t.format("HH:mm:ss");
         let parsed = Time::from_str(&hms).map_err(|e| e.to_string()).map(|p| match diff_time(&p, local_secs * 1_000_000_000, 0) {
             Ok(TDiff::Same) => 1i8,
@@ -115,13 +157,16 @@ fn judge_time(rec: &mut Rec, n: u64, off: i32) {
         });
         let js = serde_json::to_string(&t).map_err(|e| e.to_string());
         let back = js.clone().and_then(|j| serde_json::from_str::<Time>(&j).map_err(|e| e.to_string())).map(|p| (p.format("HH:mm:ss"), p.as_nanos()));
-        (shown, hms_lib, parsed, js, back)
+        (shown, hms_lib, parsed, js, back, routes)
     });
     rec.api("Time: Display/FromStr/serde");
     let wit = |obs: Value| json!({"time_as_nanos": n, "offset": off, "model_HH:mm:ss": hms, "observed": obs});
     match r {
         Err(p) => rec.violation(format!("C20|time|Display/FromStr/serde|panic|{},{}", p.class, p.site()), || wit(p.to_json())),
-        Ok((shown, hms_lib, parsed, js, back)) => {
+        Ok((shown, hms_lib, parsed, js, back, routes)) => {
+            if let Some((route, text)) = routes {
+                rec.violation(format!("C20|time|Display|format-spec-changes-the-text|{}", route), || wit(json!({"to_string": shown, "route": route, "text": text})));
+            }
             if shown != hms_lib {
                 rec.violation("C20|time|Display|wrong-text".to_string(), || wit(json!({"to_string": shown, "format(\"HH:mm:ss\")": hms_lib})));
             }
@@ -170,6 +215,7 @@ fn judge_datetime(rec: &mut Rec, i: i128, off: i32) {
     let want = i.div_euclid(NS) * NS;
     let r = trap(|| {
         let shown = dt.to_string();
+        let routes = display_routes(&dt, &shown);
         let disp_lib = dt.format("yyyy/MM/dd HH:mm:ss");
         let (js, back) = if serde_claim {
             let js = serde_json::to_string(&dt).map_err(|e| e.to_string());
@@ -187,13 +233,16 @@ fn judge_datetime(rec: &mut Rec, i: i128, off: i32) {
         } else {
             (None, None)
         };
-        (shown, disp_lib, js, back)
+        (shown, disp_lib, js, back, routes)
     });
     rec.api("DateTime: Display/serde");
     let wit = |obs: Value| json!({"value_utc": show(i), "offset": off, "model_display": disp, "observed": obs});
     match r {
         Err(p) => rec.violation(format!("C20|datetime|Display/serde|panic|{},{}", p.class, p.site()), || wit(p.to_json())),
-        Ok((shown, disp_lib, js, back)) => {
+        Ok((shown, disp_lib, js, back, routes)) => {
+            if let Some((route, text)) = routes {
+                rec.violation(format!("C20|datetime|Display|format-spec-changes-the-text|{}", route), || wit(json!({"to_string": shown, "route": route, "text": text})));
+            }
             if shown != disp_lib {
                 rec.violation(format!("C20|datetime|Display|wrong-text|{}", year_class(y)), || wit(json!({"to_string": shown, "format(\"yyyy/MM/dd HH:mm:ss\")": disp_lib})));
             }
@@ -386,7 +435,7 @@ pub fn run(ctx: &Ctx) -> PropResult {
     let out = run_workloads(ctx, wls);
     let mut meta = PropMeta::default();
     meta.rule = format!(
-        "Dates: range ends, ±10^6 days, ±400 years, 5–7 digit years of both signs, leap days, uniform over all 2^32 days — to_string() vs the documented yyyy/MM/dd, str::parse of the model-written yyyy-MM-dd, serde_json round trip (text and value). Times: every {} second of the day x 3 offsets (0, one that moves the local time across midnight, uniform), and for every offset (quick: whole-minute offsets and every 89th other) the stored times whose local reading is exactly midnight, ±1 ns, ±1 s, and noon — Display, FromStr of HH:mm:ss, serde shows the same HH:mm:ss. DateTimes: Display for all eras/offsets; serde (years 1..=9999, whole-minute offsets) returns the same instant to the second and the same offset. Malformed: delete/insert/replace/truncate mutations (multi-byte, NUL, signs, digits) of well-formed texts through serde_json and FromStr — an error, never a panic. Every case non-trivial; distinct by input hash. One instant (and one time of day) shown under six offsets in a row on one thread; DateTimes at 2^k units from 0001-01-01 / 1970-01-01 with offsets up to ±23:59; Offset::Local under a changing system zone as in C11 (Display). str::parse::<DateTime>() and serde_json on grammatical RFC 3339 texts (any fraction length, Z, ±hh:mm incl. -00:00) must succeed and agree with parse_rfc3339.",
+        "Dates: range ends, ±10^6 days, ±400 years, 5–7 digit years of both signs, leap days, uniform over all 2^32 days — to_string() vs the documented yyyy/MM/dd, str::parse of the model-written yyyy-MM-dd, serde_json round trip (text and value). Times: every {} second of the day x 3 offsets (0, one that moves the local time across midnight, uniform), and for every offset (quick: whole-minute offsets and every 89th other) the stored times whose local reading is exactly midnight, ±1 ns, ±1 s, and noon — Display, FromStr of HH:mm:ss, serde shows the same HH:mm:ss. DateTimes: Display for all eras/offsets; serde (years 1..=9999, whole-minute offsets) returns the same instant to the second and the same offset. Malformed: delete/insert/replace/truncate mutations (multi-byte, NUL, signs, digits) of well-formed texts through serde_json and FromStr — an error, never a panic. Every case non-trivial; distinct by input hash. One instant (and one time of day) shown under six offsets in a row on one thread; DateTimes at 2^k units from 0001-01-01 / 1970-01-01 with offsets up to ±23:59; Offset::Local under a changing system zone as in C11 (Display). str::parse::<DateTime>() and serde_json on grammatical RFC 3339 texts (any fraction length, Z, ±hh:mm incl. -00:00) must succeed and agree with parse_rfc3339. Display is also read through write!, width/fill/alignment, precision (.0 .3 .7), + and # flags and a wrapper forwarding its Formatter: padding is stripped, the text must stay what to_string() prints (a precision may not cut it short).",
         if ctx.quick() { "11th" } else { "single" }
     );
     meta.required_bins = vec![
